@@ -90,7 +90,7 @@ def gen_script(rng, solvers=L.SOLVERS, nops=(3, 9), p_mid=0.5, allow_modes=False
                constraints=True, limits=True, monitors=True):
     kind = rng.choice(list(solvers))
     ndim = rng.choice([1, 2, 2, 3])
-    npop = rng.choice([4, 5, 6]) if kind != "NM" else 1
+    npop = rng.choice([4, 5, 6]) if kind in ("DE", "DE2") else 1
     strategies = [s for s in L.STRATEGIES if max(npop, 4) >= (6 if s.startswith("Rand2") else 5 if s.startswith("Best2") else 4)]
     case = dict(solver=kind, ndim=ndim, npop=npop, seed=rng.randrange(10 ** 6),
                 strategy=rng.choice(strategies), cross=rng.choice([0.9, 0.5, 1.0, 0.0]),
@@ -103,7 +103,7 @@ def gen_script(rng, solvers=L.SOLVERS, nops=(3, 9), p_mid=0.5, allow_modes=False
         cost = dict(kind="vector", a=[grid(rng, -2, 2) for _ in range(ndim)])
         cfg.append(dict(op="SetReducer", red=rng.choice(["sum", "max"])))
     cfg.append(dict(op="SetObjective", cost=cost))
-    if rng.random() < 0.6 and kind != "NM":
+    if rng.random() < 0.6 and kind in ("DE", "DE2"):
         b = box or gen_box(rng, ndim)
         cfg.append(dict(op="SetRandomInitialPoints", lo=b[0], hi=b[1]))
     else:
